@@ -81,7 +81,9 @@ class SpecEval:
         if isinstance(base, VKw):
             return {'has_ipp': VBool(T.Kw.has_ipp(base.z)), 'ipp': VInt(T.Kw.ipp(base.z)),
                     'root': VInt(T.Kw.root(base.z)), 'has_root': VBool(T.Kw.has_root(base.z)),
-                    'packing': VBool(T.Kw.packing(base.z))}[n.attr]
+                    'packing': VBool(T.Kw.packing(base.z)), 'has_raw': VBool(T.Kw.has_raw(base.z)),
+                    'kraw': VBytes(T.Kw.kraw(base.z)), 'has_off': VBool(T.Kw.has_off(base.z)),
+                    'koff': VInt(T.Kw.koff(base.z))}[n.attr]
         if isinstance(base, VRx) and n.attr == 'pattern':
             return VBytes(T.rx_pattern(base.z))
         raise Untranslated('spec attribute .%s of %s' % (n.attr, base.kind))
@@ -169,6 +171,9 @@ class SpecEval:
             if f == 'min':
                 a, b = [self.eng.as_int(self.ev(x))[0] for x in n.args]
                 return VInt(z3.If(a <= b, a, b))
+            if f == 'getattr' and len(n.args) == 2:
+                o, nm = self.neg().ev(n.args[0]), self.neg().ev(n.args[1])
+                return VDyn(self.eng.slot_get(self.st, o.z, nm.z))
             if f in self.eng.specfuncs:
                 args = [self.neg().ev(x) for x in n.args]
                 kwargs = {kw.arg: self.neg().ev(kw.value) for kw in n.keywords}
